@@ -325,8 +325,11 @@ def _xa_slice(interp, st, xa, dim, lo, hi):
     if dim in coords:
         cd = coords[dim]
         coords[dim] = Arr((length,), lambda idx, cd=cd: cd.get((T.add(lo, idx[0]),)), (), cd.sort)
-    return mk_xa(st, dims, Arr(oshape, mkget(a), (), a.sort), Arr(oshape, mkget(nanarr), (), "bool") if nanarr is not None else None,
-                 coords, xa.fields["masks"], xa.fields["name"])
+    r = mk_xa(st, dims, Arr(oshape, mkget(a), (), a.sort), Arr(oshape, mkget(nanarr), (), "bool") if nanarr is not None else None,
+              coords, xa.fields["masks"], xa.fields["name"])
+    if xa.fields.get("scoords"):
+        st.deref(r).fields["scoords"] = dict(xa.fields["scoords"])
+    return r
 
 
 def xa_argmax(interp, st, xa, dim, skipna=True):
@@ -420,9 +423,23 @@ def xa_isel(interp, st, xa, indexers):
             def mkget(src, ax=ax, k=k):
                 return lambda idx: src.get(tuple(idx[:ax]) + (k,) + tuple(idx[ax:]))
             coords = {d: c for d, c in cur.fields["coords"].items() if d != dim}
+            sc = dict(cur.fields.get("scoords") or {})
+            if dim in cur.fields["coords"]:
+                # xarray keeps the coordinate value of an integer-indexed dimension as a scalar (0-d) coordinate
+                sc[dim] = CArr((), {(): cur.fields["coords"][dim].get((k,))}, cur.fields["coords"][dim].sort)
             cur = st.deref(mk_xa(st, odims, Arr(oshape, mkget(a), (), a.sort),
                                  Arr(oshape, mkget(nanarr), (), "bool") if nanarr is not None else None, coords,
                                  {d: m for d, m in cur.fields["masks"].items() if d != dim}))
+            if sc:
+                cur.fields["scoords"] = sc
+            continue
+        from ..interp import Slice as _Slice
+        if isinstance(ind, _Slice):
+            if ind.step is not None and ind.step != 1:
+                raise Unsupported("isel slice with a step")
+            if ind.lo is None and ind.hi is None:
+                continue
+            cur = st.deref(_xa_slice(interp, st, cur, dim, ind.lo, ind.hi))
             continue
         raise Unsupported(f"isel indexer {type(ind).__name__}")
     return cur
@@ -670,6 +687,8 @@ class XrPlugin:
             return o.fields["vars"][k]
         if k in o.fields["coords"]:
             c = o.fields["coords"][k]
+            if c.ndim == 0:
+                return mk_xa(st, (), c, None, {})
             return mk_xa(st, (k,), c, None, {k: c})
         from ..interp import PyRaise
         raise PyRaise(ExcVal("KeyError", (k,)))
@@ -709,6 +728,9 @@ class XrPlugin:
                     if is_xa(vv):
                         for ck, cv in vv.fields["coords"].items():
                             cs.setdefault(ck, cv)
+                        for ck, cv in (vv.fields.get("scoords") or {}).items():
+                            if ck not in nv:
+                                cs.setdefault(ck, cv)
                 return s.alloc(Obj("Dataset", {"vars": nv, "coords": cs}), "Dataset")
             return LibFunc("Dataset.assign", lib._wrap("xarray.Dataset.assign", assign))
         if name in o.fields["vars"] or name in o.fields["coords"]:
